@@ -27,7 +27,7 @@
 (***************************************************************************)
 EXTENDS Integers, Sequences, TLC
 
-CONSTANTS Kinds, Durations, Timeouts, MaxCalls
+CONSTANTS Kinds, SecondKinds, Durations, Timeouts, MaxCalls    \* SecondKinds: kinds offered after the first call
 NoTo == 999
 
 VARIABLES cfg, now, calls, last, step
@@ -72,6 +72,7 @@ Results(k, d, to) ==
 
 Call(k, d, to) ==
     /\ calls < MaxCalls
+    /\ (calls > 0 => k \in SecondKinds)
     /\ (k = "stop" => d >= 1)
     /\ (~Timed(k) /\ k # "stop" => d = 0)
     /\ \E r \in Results(k, d, to) :
